@@ -202,8 +202,11 @@ type c09Scenario struct {
 	Stick        int           `json:"stick"`
 	ReadTimeout  time.Duration `json:"read_timeout"`
 	WriteTimeout time.Duration `json:"write_timeout"`
-	Tunnels      []*c09Tunnel  `json:"tunnels"`
-	Table        string        `json:"table"`
+	// EOFWithData: the connections' Read returns the last bytes of a stream together with io.EOF when the
+	// FIN has arrived before those bytes were read (legal for an io.Reader; crypto/tls does it)
+	EOFWithData bool         `json:"read_returns_last_bytes_with_eof,omitempty"`
+	Tunnels     []*c09Tunnel `json:"tunnels"`
+	Table       string       `json:"table"`
 }
 
 // "halfclose" is the client half-closing first, "upstream-halfclose" its mirror.
@@ -320,6 +323,7 @@ func c09Gen(g *simcore.Tape, thorough bool) *c09Scenario {
 		sc.Tunnels = append(sc.Tunnels, t)
 	}
 	sc.Table = table.String()
+	sc.EOFWithData = g.Chance(35)
 	return sc
 }
 
@@ -443,6 +447,7 @@ func runC09(r *simcore.Run) {
 	r.SetSample(sc)
 	e := h3NewEnv(r)
 	defer e.finish()
+	e.net.EOFWithData = sc.EOFWithData
 	c09Build(r.Gen, sc)
 
 	tbl, err := route.NewTable(bytes.NewBufferString(sc.Table))
@@ -491,6 +496,13 @@ func runC09(r *simcore.Run) {
 	}
 	for _, t := range sc.Tunnels {
 		c09Check(r, sc, t, t.cl.Complete() && t.up.Complete())
+		// reads of fabio's two connection ends that returned the tail of a stream together with io.EOF
+		if c := t.cl.Conn(); c != nil && c.Peer() != nil {
+			r.ProbeN("fabio_read_data_with_eof_c2u", c.Peer().EOFWithDataReads())
+		}
+		if c := t.up.Conn(); c != nil && c.Peer() != nil {
+			r.ProbeN("fabio_read_data_with_eof_u2c", c.Peer().EOFWithDataReads())
+		}
 	}
 }
 
